@@ -21,7 +21,8 @@ func init() {
 		Rule: "case = (reference tree rooted or not, 1..10 bootstrap trees on the same 4..16 (sometimes 60..130) taxa (binary or multifurcating, a few rooted), optional " +
 			"taxon-mismatched tree (foreign / missing / extra taxon) at a drawn position, feed, thread count, schedule, TBE options, a second copy of the " +
 			"collection in another order, rooting and child order); FBP and TBE both run on the collection (one under the drawn schedule and thread count), " +
-			"then on the re-ordered copy. Oracle: brute-force split membership and Hamming/transfer distances on the independent reference model. " +
+			"then on the re-ordered copy; the reference may already carry supports (fractions or percentages), and for a share of the cases the other " +
+			"support has been computed on the same reference object first. Oracle: brute-force split membership and Hamming/transfer distances on the independent reference model. " +
 			"Non-trivial: some inner reference branch has 0 < FBP < 1 and FBP < TBE < 1; distinct = distinct (reference text, bootstrap texts)",
 		Gen: func(rt *rapid.T, tier string) any {
 			pc := genPipe(rt, tier, pipeGenOpts{algos: []string{"fbp", "tbe"}, faults: true, faultKinds: []string{"foreign", "missing", "extra"},
